@@ -86,18 +86,37 @@ theorem TieL.incrDispatch_any (today : Date) (b : Bool) (old pat : Str) (fl : In
   | false => exact tie_incrDispatch today old pat fl maybe_date
   | true =>
     rw [← tie_incrDispatch]
-    have hv : (List.any ((Gen.v1PartPatterns.map (·.1)) ++ (Gen.v1FullPartFormats.map (·.1)))
-        (fun part => isInfix (("{".toList ++ part) ++ "}".toList) pat)) = hasV1Part pat := rfl
     have h := hc rfl
     unfold CompilesForLog at h
-    unfold GenC.incrDispatch
-    cases hp : hasV1Part pat
-    · rw [hp] at h; simp only [Bool.false_eq_true, if_false] at h
-      obtain ⟨r, hr⟩ := h
-      simp only [hv, hp, hr, Bool.false_eq_true, if_false, if_true]
-    · rw [hp] at h; simp only [if_true] at h
-      obtain ⟨r, hr⟩ := h
-      simp only [hv, hp, hr, Bool.false_eq_true, if_false, if_true]
+    first
+      | -- `has_v1_part = any(… for part in v1_parts)`
+        (have hv : (List.any ((Gen.v1PartPatterns.map (·.1)) ++ (Gen.v1FullPartFormats.map (·.1)))
+            (fun part => isInfix (("{".toList ++ part) ++ "}".toList) pat)) = hasV1Part pat := rfl
+         unfold GenC.incrDispatch
+         cases hp : hasV1Part pat
+         · rw [hp] at h; simp only [Bool.false_eq_true, if_false] at h
+           obtain ⟨r, hr⟩ := h
+           simp only [hv, hp, hr, Bool.false_eq_true, if_false, if_true, Bool.not_false, Bool.not_true]
+           done
+         · rw [hp] at h; simp only [if_true] at h
+           obtain ⟨r, hr⟩ := h
+           simp only [hv, hp, hr, Bool.false_eq_true, if_false, if_true, Bool.not_false, Bool.not_true]
+           done)
+      | -- the searching loop
+        (unfold GenC.incrDispatch
+         dsimp only
+         cases hfind : List.find? (fun part => isInfix (("{".toList ++ part) ++ "}".toList) pat)
+             ((Gen.v1PartPatterns.map (·.1)) ++ (Gen.v1FullPartFormats.map (·.1))) with
+         | none =>
+           rw [hasV1Part_of_find_none pat hfind] at h
+           simp only [Bool.false_eq_true, if_false] at h
+           obtain ⟨r, hr⟩ := h
+           simp only [hr, Bool.false_eq_true, if_false, if_true, Bool.not_false, Bool.not_true]
+         | some part =>
+           rw [hasV1Part_of_find_some pat part hfind] at h
+           simp only [if_true] at h
+           obtain ⟨r, hr⟩ := h
+           simp only [hr, Bool.false_eq_true, if_false, if_true, Bool.not_false, Bool.not_true])
 
 theorem TieL.cmdIsValidVersion_not_unique_legacy (today : Date) (pat old new : Str) (hp : isNewPattern pat = false)
     (ce : CmdEnv) (s : CState) :
